@@ -98,12 +98,49 @@ def _sum(xs, lo, hi):
     return t
 
 
-def body_structural(ctx, N, cfg):
+def _documented_cut(p, n0, t0, n1, t1, retained):
+    """the cut test of the statement on the *current* window (floating point): None when the two sides are too close to call"""
+    import math
+
+    W = len(retained)
+    m = sum(retained) / W
+    variance = sum((v - m) ** 2 for v in retained) / W
+    thr = p["subwindow_size_thresh"]
+    inv_m = 1 / (n0 - thr + 1) + 1 / (n1 - thr + 1)
+    if not p["conservative_bound"]:
+        dp = math.log(2 * math.log(W) / p["delta"])
+        eps = math.sqrt(2 * inv_m * variance * dp) + (2 / 3) * inv_m * dp
+    else:
+        dp = math.log(4 * math.log(W) / p["delta"])
+        eps = math.sqrt(0.5 * inv_m * dp)
+    lhs = abs(t0 / n0 - t1 / n1)
+    if abs(lhs - eps) < 1e-9:
+        return None
+    return lhs > eps
+
+
+def body_structural(ctx, N, cfg, levels=None):
+    """levels=None: symbolic real inputs, free cut answers.  levels=(a, b): every input is a or b (one solver-driven bit
+    per sample, so all statistics are the real doubles) and the *real* _check_epsilon decides; each of its answers must be
+    the documented test evaluated on the window retained at that moment (seed C03-8 evaluated later splits of the same
+    update with the variance and length of the window before the first drop)."""
     with DRIVERS["ADWIN"](ctx, **cfg) as drv:
         d = drv.det
         p = drv._params()
         model = HistModel(p["max_buckets"])
         xs = []
+        # two-level runs compare doubles produced by different summation orders: tolerance instead of exact equality
+        eqf = (lambda u, v: ctx.approx(u, v, 1e-7)) if levels is not None else ctx.eq
+        if levels is not None:
+            real = type(d)._check_epsilon
+
+            def wrapped(n0, t0, n1, t1, *extra, **kw):
+                ans = bool(real(d, n0, t0, n1, t1, *extra, **kw))
+                drv.cut_calls.append((n0, t0, n1, t1, ans, d._window_size, d.total_samples))
+                return ans
+
+            d._check_epsilon = wrapped
+            drv.fresh_input = lambda i: float(levels[1]) if bool(ctx.bool(f"high{i}")) else float(levels[0])
         for i in range(N):
             W_before = d._window_size
             ncalls = len(drv.cut_calls)
@@ -134,8 +171,13 @@ def body_structural(ctx, N, cfg):
                             k += 1
                             first = bs[0][0]
                             ctx.prove(land(c[0] == n0, c[2] == n1, c[5] == W), "cut-query-sizes")
-                            ctx.prove(land(ctx.eq(c[1], _sum(xs, first, first + n0 - 1)),
-                                           ctx.eq(c[3], _sum(xs, first + n0, i))), "cut-query-sums")
+                            ctx.prove(land(eqf(c[1], _sum(xs, first, first + n0 - 1)),
+                                           eqf(c[3], _sum(xs, first + n0, i))), "cut-query-sums")
+                            if levels is not None:
+                                want = _documented_cut(p, n0, c[1], n1, c[3], xs[first:i + 1])
+                                ctx.prove(want is None or bool(c[4]) == want, "cut-answer-is-the-documented-test-on-the-current-window")
+                                if bool(c[4]) and any_cut:
+                                    ctx.witness("second-cut-in-one-update")
                             if bool(c[4]):
                                 any_cut = True
                                 model.drop_oldest()
@@ -143,6 +185,9 @@ def body_structural(ctx, N, cfg):
                                 ctx.witness("cut")
                                 break
             ctx.prove(k == len(calls), "no-unscheduled-or-extra-cut-query")
+            while drv.cut_extra:
+                with_extra, from_window = drv.cut_extra.pop(0)
+                ctx.prove(iff(with_extra, from_window), "cut-decision-is-taken-from-the-current-window")
             # ---- state after the update
             W = model.size()
             first = i - W + 1
@@ -150,12 +195,12 @@ def body_structural(ctx, N, cfg):
             ctx.prove(iff(state_is(d.drift_state, "drift"), any_cut), "drift-iff-some-cut")
             ctx.prove(implies(d._window_size < W_before + 1, state_is(d.drift_state, "drift")), "shrinks-only-on-drift")
             if W > 0:
-                ctx.prove(ctx.eq(d.mean() * W, _sum(xs, first, i)), "mean-of-retained-window")
+                ctx.prove(eqf(d.mean() * W, _sum(xs, first, i)), "mean-of-retained-window")
                 m = _sum(xs, first, i) / W
                 sq = 0
                 for j in range(first, i + 1):
                     sq = sq + (xs[j] - m) * (xs[j] - m)
-                ctx.prove(ctx.eq(d.variance() * W, sq), "variance-of-retained-window")
+                ctx.prove(eqf(d.variance() * W, sq), "variance-of-retained-window")
             if any_cut:
                 ctx.prove(list(d.retraining_recs) == [total - W, total - 1], "recs-retained-window")
             else:
@@ -294,6 +339,13 @@ def jobs(tier):
                                             "subwindow_size_thresh": sst}},
                                    expect=("cut",), opts={"validate": 1}))
     # max_buckets=1 empties whole rows when it merges: needs >= 11 samples to drop a bucket *past* an empty row
+    # real cut decisions on two-level streams (all 2^N level sequences): delta = 1 and a level gap of 10 make cuts, and
+    # several drops in one update, reachable within N samples
+    for mb, cons, n in ((1, False, 9 if q else 11), (2, False, 10 if q else 12), (2, True, 9 if q else 11)):
+        out.append(Job(f"real-cuts-mb{mb}-conservative{int(cons)}", "checks.c03:body_structural",
+                       {"N": n, "cfg": {"max_buckets": mb, "new_sample_thresh": 1, "window_size_thresh": 1, "subwindow_size_thresh": 1,
+                                        "delta": 1.0, "conservative_bound": cons, "havoc_cut": False},
+                        "levels": [0, 10]}, expect=("cut", "second-cut-in-one-update"), opts={"validate": 1}))
     out.append(Job("struct-mb1-long", "checks.c03:body_structural",
                    {"N": 11 if q else 13, "cfg": {"max_buckets": 1, "new_sample_thresh": 1, "window_size_thresh": 0,
                                                   "subwindow_size_thresh": 1}},
